@@ -126,6 +126,11 @@ func genMatcher(t *rapid.T, depth int, exclude map[string]bool) matcher {
 	case "remote_ip", "local_ip":
 		r := someOf(t, "range", 1, cidrs...)
 		args, js := append([]string(nil), r...), strs(r...)
+		if rapid.IntRange(0, 4).Draw(t, "placeholderRange") == 0 {
+			// a range given through a placeholder stays a placeholder in the JSON (it is resolved at provisioning)
+			args = append(args, "{env.VERIF_C15_NET}")
+			js = append(js, "{env.VERIF_C15_NET}")
+		}
 		if rapid.IntRange(0, 3).Draw(t, "privateRanges") == 0 {
 			// the documented shorthand for the private address ranges
 			args = append(args, "private_ranges")
@@ -697,6 +702,16 @@ func genHandler(t *rapid.T, depth int) handler {
 					v := someOf(t, "csAllV", 1, "verif", "prod")
 					sb = append(sb, node{name: "all_tags", args: v})
 					sel["all_tags"] = strs(v...)
+				}
+				if rapid.Bool().Draw(t, "csSerial") {
+					// serial numbers are decimal numerals, however they are written; the JSON carries them as strings
+					v := someOf(t, "csSerialV", 1, "42", "0123", "0770", "18446744073709551617")
+					sb = append(sb, node{name: "serial_number", args: v})
+					var js []any
+					for _, x := range v {
+						js = append(js, strings.TrimLeft(x, "0"))
+					}
+					sel["serial_number"] = js
 				}
 				if rapid.Bool().Draw(t, "csOrg") {
 					v := someOf(t, "csOrgV", 1, "Example", "Verif")
